@@ -347,8 +347,17 @@ def fsArg (T : Table) (c : Ctx) (n : Node) (v : Val) : Val :=
 def plainPure (T : Table) (c : Ctx) (n : Node) (p : Nat) : Val :=
   (preValue T c n p).1
 
+/-- the root font size as `length_` reads it for rem outside `font-size`: rootStyle.fontSize, but on
+    the root element itself the element's own computed font size (CSS Values 3 §5.1.1) -/
+def rootArgL (T : Table) (c : Ctx) (n : Node) (v : Val) : Val :=
+  if needsRoot v then
+    match c.par with
+    | none => fontSizePure T c n
+    | some _ => c.rootFS
+  else .init 0
+
 def lengthPure (T : Table) (c : Ctx) (n : Node) (p : Nat) (v : Val) (pixelsOnly : Bool) : Val :=
-  lengthArith p n v (fsArg T c n v) (rootArg c v) pixelsOnly
+  lengthArith p n v (fsArg T c n v) (rootArgL T c n v) pixelsOnly
 
 /-- the computer function of `p` applied to `v` -/
 def computePure (T : Table) (c : Ctx) (n : Node) (p : Nat) (v : Val) : Val :=
@@ -366,10 +375,10 @@ def computePure (T : Table) (c : Ctx) (n : Node) (p : Nat) (v : Val) : Val :=
     | v => lengthPure T c n p v false
   | .lineHeight =>
     if lhNeedsFS v then lineHeightArith p n v (fontSizePure T c n) (.init 0)
-    else lineHeightArith p n v (fsArg T c n v) (rootArg c v)
+    else lineHeightArith p n v (fsArg T c n v) (rootArgL T c n v)
   | .borderWidth =>
     let style := plainPure T c n (p - 1)
-    if bwNeedsLength T v style then borderWidthArith T p n v style (fsArg T c n v) (rootArg c v)
+    if bwNeedsLength T v style then borderWidthArith T p n v style (fsArg T c n v) (rootArgL T c n v)
     else borderWidthArith T p n v style (.init 0) (.init 0)
   | .other => .comp p n.id v
 
@@ -389,7 +398,8 @@ def nodePure (T : Table) (c : Ctx) (n : Node) (p : Nat) : Val :=
     let r := preValue T c n p
     if r.2 then computePure T c n p r.1 else r.1
 
-/-- context of the root element: no parent, `rem` refers to the initial font size -/
+/-- context of the root element: no parent; on its `font-size` property `rem` refers to the initial
+    font size (for the other properties see `rootArgL`) -/
 def rootCtx (T : Table) : Ctx := { par := none, rootFS := T.initVal T.pFontSize }
 
 /-- the root element of a chain (its last node) -/
@@ -523,11 +533,20 @@ def plainGet (T : Table) (g : Getters) (key : List Node) (n : Node) (p : Nat) (s
 def fsGet (T : Table) (g : Getters) (key : List Node) (n : Node) (v : Val) (st : State) : State × Val :=
   if needsFS v then fontSizeGet T g key n st else (st, .init 0)
 
+/-- rem outside `font-size`: rootStyle.fontSize, on the root element the own font size (already
+    fetched by `fsGet`: a cache hit) -/
+def rootGetL (T : Table) (g : Getters) (key : List Node) (n : Node) (v : Val) (st : State) : State × Val :=
+  if needsRoot v then
+    match g.par with
+    | none => fontSizeGet T g key n st
+    | some _ => g.root st
+  else (st, .init 0)
+
 /-- `length_(computer, v, -1, pixelsOnly)` -/
 def lengthGet (T : Table) (g : Getters) (key : List Node) (n : Node) (p : Nat) (v : Val)
     (pixelsOnly : Bool) (st : State) : State × Val :=
   let a := fsGet T g key n v st
-  let b := rootGet g v a.1
+  let b := rootGetL T g key n v a.1
   (b.1, lengthArith p n v a.2 b.2 pixelsOnly)
 
 /-- the computer function of `p` applied to `v`, with the nested `Get`s it issues -/
@@ -559,13 +578,13 @@ def computeGet (T : Table) (g : Getters) (key : List Node) (n : Node) (p : Nat) 
       (r.1, lineHeightArith p n v r.2 (.init 0))
     else
       let a := fsGet T g key n v st
-      let b := rootGet g v a.1
+      let b := rootGetL T g key n v a.1
       (b.1, lineHeightArith p n v a.2 b.2)
   | .borderWidth =>
     let s := plainGet T g key n (p - 1) st
     if bwNeedsLength T v s.2 then
       let a := fsGet T g key n v s.1
-      let b := rootGet g v a.1
+      let b := rootGetL T g key n v a.1
       (b.1, borderWidthArith T p n v s.2 a.2 b.2)
     else (s.1, borderWidthArith T p n v s.2 (.init 0) (.init 0))
   | .other => (st, .comp p n.id v)
